@@ -1,5 +1,5 @@
 #!/bin/bash
-# confirm every round-2 seeded change (scratch worktrees under /tmp/confirm), P at a time
-P=${1:-3}
+# confirm every seeded change of one round (default r2) in scratch worktrees under /tmp/confirm, P at a time
+P=${1:-3}; R=${2:-r2}
 cd /verif
-for p in $(seq -w 1 20); do for m in r2m1 r2m2; do echo "C$p $m"; done; done | xargs -P $P -L 1 sh -c 'python3 tools/seed.py confirm $0 $1 > /var/tmp/seedrec/confirm-$0-$1.log 2>&1; echo "$0 $1 done"'
+for p in $(seq -w 1 20); do for m in ${R}m1 ${R}m2; do echo "C$p $m"; done; done | xargs -P $P -L 1 sh -c 'python3 tools/seed.py confirm $0 $1 > /var/tmp/seedrec/confirm-$0-$1.log 2>&1; echo "$0 $1 done"'
